@@ -16,6 +16,7 @@ import netdrive
 KNOWN_WIPE = {"kind": "double-crash-state-wipe"}
 KNOWN_FAST = {"kind": "fastvote-before-cert"}
 KNOWN_STALECERT = {"kind": "panic-stale-cert-bundle"}
+SCENARIOS = ["doublecommit", "fastcommit", "latepayload", "stalecert"]   # harness/agreement/zz_verif_netdrive_scen_test.go
 
 
 # ----------------------------------------------------------------------------- analysis
@@ -185,6 +186,12 @@ def run(ctx, replay=None):
         name = "corpus-" + os.path.basename(path)[:-6]
         sh = netdrive.run_shard(ctx, exe, name, {"VERIF_REPLAY": path}, tmo)
         analyse(ctx, sh, stats, corpus_name=os.path.basename(path))
+
+    # ---- 1b. directed scenarios, executed LIVE (they pick messages by sender / step / value, so they adapt to what the
+    #          current code sends; a recorded schedule only replays what the unchanged code sent)
+    for sc in SCENARIOS:
+        sh = netdrive.run_shard(ctx, exe, "scenario-" + sc, {"VERIF_ND_SCENARIO": sc}, tmo, test="TestVerifNetDriveScenario")
+        analyse(ctx, sh, stats, corpus_name="scenario:" + sc)
 
     # ---- 2. generated schedules, in parallel shards
     total = ctx.budget(40, 2400)
